@@ -650,7 +650,7 @@ def _apply_caps(current_node, current_edges, caps):
     return state_node.get_tensor()
 
 
-def _apply_pt_mpos(current_node, current_edges, pt_mpos):
+def _apply_pt_mpos(current_node, current_edges, pt_mpos, reverse=False):
     """
     Apply MPO for forward propagation step
 
@@ -685,7 +685,12 @@ def _apply_pt_mpos(current_node, current_edges, pt_mpos):
             |          |
                        |
     """
-    for i, pt_mpo in enumerate(pt_mpos):
+    indexed_pt_mpos = list(enumerate(pt_mpos))
+    if reverse:
+        # backpropagation: the system leg passes the environments in the
+        # opposite order (each MPO still attaches to its own bond leg)
+        indexed_pt_mpos.reverse()
+    for i, pt_mpo in indexed_pt_mpos:
         if pt_mpo is None:
             continue
         pt_mpo_node = tn.Node(pt_mpo)
